@@ -84,7 +84,7 @@ def channel_fidelity(choi_1: np.ndarray, choi_2: np.ndarray, eps: float = 1e-7) 
         raise ValueError("The Choi matrix provided must be square.")
 
     choi_dim = choi_dim_x
-    dim = int(np.log2(choi_dim))
+    dim = int(np.round(np.sqrt(choi_dim)))
 
     lam = cvxpy.Variable(nonneg=True)
     q_var = cvxpy.Variable((choi_dim, choi_dim), complex=True)
